@@ -104,11 +104,18 @@ func analyseClientIn(c *Ctx, pkgRel, typeName string, serial bool) *clientInfo {
 	ci.an = &Analysis{ctx: c, u: newUniverse(), top: ci.Do, logCalls: true}
 	ci.top = ci.an.newFrame(ci.Do, nil, nil)
 	ci.top.run(dnfTrue())
-	for _, ch := range ci.top.child {
-		if ch.fn == ci.do {
-			ci.inner = ch
+	// do is called from Do directly or through a thin helper Do delegates to
+	var findInner func(f *Frame, depth int)
+	findInner = func(f *Frame, depth int) {
+		for _, ch := range f.child {
+			if ch.fn == ci.do {
+				ci.inner = ch
+			} else if depth < 2 && ch.fn.Pkg == ci.Do.Pkg {
+				findInner(ch, depth+1)
+			}
 		}
 	}
+	findInner(ci.top, 0)
 	if ci.inner == nil {
 		ci.problem = "Do does not call do statically"
 		return ci
@@ -399,4 +406,10 @@ func (ci *clientInfo) childOfCall(v AV) *Frame {
 		}
 	}
 	return nil
+}
+
+// inTop: the call was made in Do's own part of the exchange: in Do or a helper inlined under it,
+// but not inside do (the read loop function).
+func (ci *clientInfo) inTop(cr *CallRec) bool {
+	return cr.frame.within(ci.top) && !(ci.inner != nil && cr.frame.within(ci.inner))
 }
